@@ -71,6 +71,9 @@ static std::string listing(const std::string& dir, const std::string& base, bool
 
 int main()
 {
+	// the global logger is not the subject here: library threads that log through it allocate from FastFlow's per-thread allocator, whose
+	// deregistration at thread exit is occasionally reported by ASan (heap-use-after-free in ff/allocator.hpp) - keep it silent
+	FIX8::GlobalLogger::set_levels(FIX8::Logger::Levels(FIX8::Logger::None));
 	char tmpl[] = "/tmp/verif_rot_XXXXXX";
 	const std::string dir(mkdtemp(tmpl));
 	std::string line;
